@@ -68,6 +68,17 @@ func Walk(ctx context.Context, fileSystem fs.FS, prefix, delimiter, marker strin
 		}
 	}
 
+	// the walk below starts at root and only ever tests the directories it
+	// descends into against skipdirs: a prefix that points into a skipped
+	// directory must not make its content visible
+	if root != "." {
+		for _, seg := range strings.Split(root, "/") {
+			if contains(seg, skipdirs) {
+				return WalkResults{}, nil
+			}
+		}
+	}
+
 	err := fs.WalkDir(fileSystem, root, func(path string, d fs.DirEntry, err error) error {
 		if err != nil {
 			return err
